@@ -92,9 +92,11 @@ def run(tier, seed):
             reqs.append('dump %d %d %s' % (did, did, tb(d)))
             meta.append(('dump', did, d))
             if d and (rng.random() < 0.5 or d is big):
-                k, pad = (1 if d is big else rng.choice([1, 2])), rng.random() < 0.5
-                reqs.append('render %d %d %s' % (k, int(pad), tb(d)))
-                meta.append(('render', did, d, k, pad))
+                # (the dump longer than 64 KiB in BOTH line formats: they differ in characters per line, so a limit counted in characters cuts them at different sizes)
+                for k in ((1, 2) if d is big else (rng.choice([1, 2]),)):
+                    pad = rng.random() < 0.5
+                    reqs.append('render %d %d %s' % (k, int(pad), tb(d)))
+                    meta.append(('render', did, d, k, pad))
         # dump files whose data bytes are the delimiter characters of the OTHER line format (':', '<', '>', blanks, hex digits):
         # they show up in the character column, where no format may be recognised by them
         for k in (1, 2):
